@@ -1,5 +1,5 @@
 (* C10 — executable transcription of pkg/trie/smt/verify.go (Verify, CalculateRoot, as repaired by the `fix:` commits:
-   the de-duplication key contains the height, conflicting queries for one node are rejected, a query merged into an
+   query keys must have the trie's key length, the de-duplication key contains the height, conflicting queries for one node are rejected, a query merged into an
    existing node must carry the same hash), proof.go (QueryProofs.sort, isSiblingOf, binaryPath), utils.go
    (insertAndFilterQueries, stripPrefixFalse) and collection/bytes (ToBools, FromBools, Compare, CommonPrefix).
    Keys, values, bitmaps are byte lists (list N); the hash is abstract.  Results: VTrue / VFalse / VErr (Go: (false, err)).
@@ -150,6 +150,7 @@ Section Verify.
     | _ :: _, [] => VFalse
     | k :: keys', q :: qs' =>
       if negb (Nat.eqb (length k) key_length) then VFalse
+      else if negb (Nat.eqb (length (q_key q)) key_length) then VFalse
       else
         let early : option verdict :=
           match find (fun s => bytes_eqb (q_key s) (q_key q)) seen with
